@@ -61,7 +61,7 @@ def classify_sanitizer(stderr_text):
     m_alloc = re.search(r"\n(allocated by thread|previously allocated by thread|Previous (?:write|read)|Location is)", stderr_text)
     if m_alloc:
         head = stderr_text[:m_alloc.start()]
-    libframes = re.findall(r"#\d+ 0x[0-9a-f]+ in (\S+) (\S+)", head)
+    libframes = re.findall(r"#\d+ (?:0x[0-9a-f]+ in )?(\S+) (\S+)", head)
     cblas = None
     for fn, loc in libframes:
         if "/SRC/" in loc or "/FORTRAN/" in loc:
@@ -78,7 +78,7 @@ def classify_sanitizer(stderr_text):
         extra += "|" + m.group(1)[0]
     if m_alloc and stderr_text[m_alloc.start():].lstrip().startswith("allocated by"):
         tail = stderr_text[m_alloc.start():]
-        for fn, loc in re.findall(r"#\d+ 0x[0-9a-f]+ in (\S+) (\S+)", tail):
+        for fn, loc in re.findall(r"#\d+ (?:0x[0-9a-f]+ in )?(\S+) (\S+)", tail):
             if "/SRC/" in loc or "/FORTRAN/" in loc:
                 extra += "|alloc:" + fn
                 break
